@@ -1,15 +1,16 @@
-"""./check --setup : build everything from files on disk (offline)."""
-import glob, os, sys
+"""./check --setup : build everything the claimed checks need, from files on disk (offline)."""
+import glob, json, os, sys
 import lib
 
 def main():
-    bins = sorted(os.path.basename(p)[:-3] for p in glob.glob(os.path.join(lib.HARNESS, "src", "bin", "c*.rs")))
+    claimed = [c["property_id"] for c in json.load(open(os.path.join(lib.ROOT, "MANIFEST.json")))["checks"]]
+    bins = [p.lower() for p in claimed if os.path.exists(os.path.join(lib.HARNESS, "src", "bin", p.lower() + ".rs"))]
     ok, out = lib.cargo_build(bins)
     print(out[-1500:])
     if not ok:
         print("setup: cargo build failed")
         return 1
-    props = sorted(os.path.basename(p)[:-5] for p in glob.glob(os.path.join(lib.LEAN, "BrushVerif", "Props", "C*.lean")))
+    props = [p for p in claimed if os.path.exists(os.path.join(lib.LEAN, "BrushVerif", "Props", p + ".lean"))]
     ok, out = lib.lake_build(["BrushVerif.Props.%s" % p for p in props] + ["drv"])
     print(out[-1500:])
     if not ok:
